@@ -589,30 +589,33 @@ theorem convBV_rest_good (anno : Nat → SI) (env : Nat → Nat)
     cases this
     refine ⟨?_, hnrm i⟩
     refine ⟨⟨(hctx i).1, hwt⟩, ?_⟩
-    intro v hv
+    intro v hv0
+    have hv := hv0
     simp only [evalBV] at hv
     cases hv
-    exact ⟨(hctx i).2, fun j hj => by cases hj; rfl⟩
+    exact ⟨(hctx i).2, rfl⟩
   | .free i w, o, av, o', _, _, _, hwt, h => by
     simp only [convBV] at h
     have := pure_ok _ _ h
     cases this
     refine ⟨?_, nrm_top w hwt.1⟩
     refine ⟨⟨top_WF w hwt.1, top_bits w⟩, ?_⟩
-    intro v hv
+    intro v hv0
+    have hv := hv0
     simp only [evalBV] at hv
     cases hv
-    exact ⟨(mem_top w _).2 hwt.2, fun j hj => by cases hj; rfl⟩
+    exact ⟨(mem_top w _).2 hwt.2, rfl⟩
   | .const c w, o, av, o', _, _, _, hwt, h => by
     simp only [convBV] at h
     have := pure_ok _ _ h
     cases this
     refine ⟨?_, nrm_new _ _ _ _ hwt.1⟩
     refine ⟨⟨const_WF c w hwt.1, by simp [wd]⟩, ?_⟩
-    intro v hv
+    intro v hv0
+    have hv := hv0
     simp only [evalBV] at hv
     cases hv
-    exact ⟨const_mem c w hwt.2, fun j hj => by cases hj⟩
+    exact ⟨const_mem c w hwt.2, hv0⟩
   | .bin op a b, o, av, o', R, hal, hdef, hwt, h => by
     simp only [convBV] at h
     obtain ⟨p1, h1, h⟩ := bind_ok _ _ _ h
@@ -639,11 +642,12 @@ theorem convBV_rest_good (anno : Nat → SI) (env : Nat → Nat)
     obtain ⟨⟨⟨wr, br⟩, nr⟩, mr⟩ := key
     refine ⟨?_, nr⟩
     refine ⟨⟨wr, by rw [br, ba]; rfl⟩, ?_⟩
-    intro v hv
+    intro v hv0
+    have hv := hv0
     simp only [evalBV] at hv
     obtain ⟨x, hx, hv⟩ := obind_some _ _ _ hv
     obtain ⟨y, hy, hv⟩ := obind_some _ _ _ hv
-    refine ⟨mr x y v (ma x hx).1 (mb y hy).1 (by rw [ba]; exact hv), fun j hj => by cases hj⟩
+    refine ⟨mr x y v (ma x hx).1 (mb y hy).1 (by rw [ba]; exact hv), nameOK_bin env op _ _ _ v (ma x hx).1.1 hv0⟩
   | .neg a, o, av, o', R, hal, hdef, hwt, h => by
     simp only [convBV] at h
     obtain ⟨p1, h1, h⟩ := bind_ok _ _ _ h
@@ -654,11 +658,12 @@ theorem convBV_rest_good (anno : Nat → SI) (env : Nat → Nat)
     obtain ⟨wr, br⟩ := neg_WF p1.1.si wa
     refine ⟨?_, neg_nrm p1.1.si wa⟩
     refine ⟨⟨wr, by rw [br, ba]; rfl⟩, ?_⟩
-    intro v hv
+    intro v hv0
+    have hv := hv0
     simp only [evalBV] at hv
     obtain ⟨x, hx, hv⟩ := obind_some _ _ _ hv
     cases hv
-    refine ⟨?_, fun j hj => by cases hj⟩
+    refine ⟨?_, hv0⟩
     rw [← ba]
     unfold Conc.neg
     rw [Nat.mod_eq_of_lt (ma x hx).1.2.1]
@@ -675,11 +680,12 @@ theorem convBV_rest_good (anno : Nat → SI) (env : Nat → Nat)
     obtain ⟨⟨wr, br⟩, mr⟩ := not_sound p1.1.si r wa (ma x0 hx0).1.1 h2
     refine ⟨?_, not_nrm p1.1.si r wr h2⟩
     refine ⟨⟨wr, by rw [br, ba]; rfl⟩, ?_⟩
-    intro v hv
+    intro v hv0
+    have hv := hv0
     simp only [evalBV] at hv
     obtain ⟨x, hx, hv⟩ := obind_some _ _ _ hv
     cases hv
-    refine ⟨?_, fun j hj => by cases hj⟩
+    refine ⟨?_, hv0⟩
     rw [← ba]
     unfold Conc.not
     rw [Nat.mod_eq_of_lt (ma x hx).1.2.1]
@@ -696,14 +702,14 @@ theorem convBV_rest_good (anno : Nat → SI) (env : Nat → Nat)
     obtain ⟨⟨wr, br⟩, mr⟩ := zext_sound p1.1.si r (k + p1.1.si.bits) wa (ma x0 hx0).1.1 (by omega) h2
     refine ⟨?_, zeroExtend_nrm p1.1.si r (k + p1.1.si.bits) wa (ma x0 hx0).1.1 na (by omega) wr h2⟩
     refine ⟨⟨wr, by rw [br, ba]; rfl⟩, ?_⟩
-    intro v hv
+    intro v hv0
+    have hv := hv0
     simp only [evalBV] at hv
     refine ⟨mr v (ma v hv).1, ?_⟩
-    intro j hj
-    simp only [] at hj
-    split at hj
-    · exact (ma v hv).2 j hj
-    · cases hj
+    dsimp only
+    split
+    · exact (ma v hv).2
+    · exact hv0
   | .sext k a, o, av, o', R, hal, hdef, hwt, h => by
     simp only [convBV] at h
     obtain ⟨p1, h1, h⟩ := bind_ok _ _ _ h
@@ -717,20 +723,20 @@ theorem convBV_rest_good (anno : Nat → SI) (env : Nat → Nat)
     obtain ⟨⟨wr, br⟩, mr⟩ := sext_sound p1.1.si r (k + p1.1.si.bits) wa (ma x0 hx0).1.1 na (by omega) h2
     refine ⟨?_, sext_nrm p1.1.si r (k + p1.1.si.bits) wa (ma x0 hx0).1.1 na (by omega) wr h2⟩
     refine ⟨⟨wr, by rw [br, ba]; rfl⟩, ?_⟩
-    intro v hv
+    intro v hv0
+    have hv := hv0
     simp only [evalBV] at hv
     obtain ⟨x, hx, hv⟩ := obind_some _ _ _ hv
     cases hv
     refine ⟨by rw [← ba]; exact mr x (ma x hx).1, ?_⟩
-    intro j hj
-    simp only [] at hj
+    dsimp only
     cases keeps with
-    | false => simp at hj
+    | false => simp only [Bool.false_eq_true, if_false]; exact hv0
     | true =>
-      simp only [if_true] at hj
+      simp only [if_true]
       have hsame := sextKeeps_sound p1.1.si k x wa h3 (ma x hx).1
       rw [← ba, hsame]
-      exact (ma x hx).2 j hj
+      exact (ma x hx).2
   | .extract hi lo a, o, av, o', R, hal, hdef, hwt, h => by
     simp only [convBV] at h
     obtain ⟨p1, h1, h⟩ := bind_ok _ _ _ h
@@ -743,14 +749,14 @@ theorem convBV_rest_good (anno : Nat → SI) (env : Nat → Nat)
     obtain ⟨⟨wr, br⟩, mr⟩ := extract_sound p1.1.si r hi lo wa (ma x0 hx0).1.1 hwt.2.1 (by rw [ba]; exact hwt.2.2) h2
     refine ⟨?_, extract_nrm p1.1.si r hi lo wr h2⟩
     refine ⟨⟨wr, by rw [br]; rfl⟩, ?_⟩
-    intro v hv
+    intro v hv0
+    have hv := hv0
     simp only [evalBV] at hv
     obtain ⟨x, hx, hv⟩ := obind_some _ _ _ hv
     cases hv
     refine ⟨mr x (ma x hx).1, ?_⟩
-    intro j hj
-    simp only [] at hj
-    split at hj
+    dsimp only
+    split
     · rename_i hk
       have hk' : lo = 0 ∧ hi + 1 - lo = p1.1.si.bits := by simpa [extractKeeps] using hk
       have hxlt : x < 2 ^ p1.1.si.bits := (ma x hx).1.2.1
@@ -760,8 +766,8 @@ theorem convBV_rest_good (anno : Nat → SI) (env : Nat → Nat)
         have : hi + 1 - 0 = p1.1.si.bits := by rw [← hk'.1]; exact hk'.2
         rw [this, Nat.mod_eq_of_lt hxlt]
       rw [this]
-      exact (ma x hx).2 j hj
-    · cases hj
+      exact (ma x hx).2
+    · exact hv0
   | .concat a b, o, av, o', R, hal, hdef, hwt, h => by
     simp only [convBV] at h
     obtain ⟨p1, h1, h⟩ := bind_ok _ _ _ h
@@ -779,12 +785,13 @@ theorem convBV_rest_good (anno : Nat → SI) (env : Nat → Nat)
     have nr := nr' nb
     refine ⟨?_, nr⟩
     refine ⟨⟨wr, by rw [br, ba, bb]; rfl⟩, ?_⟩
-    intro v hv
+    intro v hv0
+    have hv := hv0
     simp only [evalBV] at hv
     obtain ⟨x, hx, hv⟩ := obind_some _ _ _ hv
     obtain ⟨y, hy, hv⟩ := obind_some _ _ _ hv
     cases hv
-    exact ⟨by rw [← bb]; exact mr x y (ma x hx).1 (mb y hy).1, fun j hj => by cases hj⟩
+    exact ⟨by rw [← bb]; exact mr x y (ma x hx).1 (mb y hy).1, hv0⟩
   | .ite c a b, o, av, o', R, hal, hdef, hwt, h => by
     simp only [convBV] at h
     obtain ⟨pc, hc, h⟩ := bind_ok _ _ _ h
@@ -807,7 +814,8 @@ theorem convBV_rest_good (anno : Nat → SI) (env : Nat → Nat)
       cases this
       refine ⟨?_, nb⟩
       refine ⟨⟨wb, by rw [bb]; exact hwt.2.2.2.symm⟩, ?_⟩
-      intro v hv
+      intro v hv0
+      have hv := hv0
       simp only [evalBV] at hv
       obtain ⟨cv, hcv, hv⟩ := obind_some _ _ _ hv
       have hh := gc cv hcv
@@ -821,7 +829,8 @@ theorem convBV_rest_good (anno : Nat → SI) (env : Nat → Nat)
         cases this
         refine ⟨?_, na⟩
         refine ⟨⟨wa, ba⟩, ?_⟩
-        intro v hv
+        intro v hv0
+        have hv := hv0
         simp only [evalBV] at hv
         obtain ⟨cv, hcv, hv⟩ := obind_some _ _ _ hv
         have hh := gc cv hcv
@@ -839,13 +848,19 @@ theorem convBV_rest_good (anno : Nat → SI) (env : Nat → Nat)
           rw [this]; exact pseudoJoin_nrm _ _ true wa na nb
         refine ⟨?_, nu⟩
         refine ⟨⟨wr, by rw [br, ba]; rfl⟩, ?_⟩
-        intro v hv
+        intro v hv0
+        have hv := hv0
         simp only [evalBV] at hv
         obtain ⟨cv, hcv, hv⟩ := obind_some _ _ _ hv
-        refine ⟨?_, fun j hj => by cases hj⟩
         cases cv with
-        | true => simp only [if_true] at hv; exact mr v (Or.inl (ma v hv).1)
-        | false => simp only [Bool.false_eq_true, if_false] at hv; exact mr v (Or.inr (mb v hv).1)
+        | true =>
+          simp only [if_true] at hv
+          exact ⟨mr v (Or.inl (ma v hv).1),
+            nameOK_join env p1.1 p2.1 _ true v (fun _ => ma v hv) (fun hh => by cases hh) hv0⟩
+        | false =>
+          simp only [Bool.false_eq_true, if_false] at hv
+          exact ⟨mr v (Or.inr (mb v hv).1),
+            nameOK_join env p1.1 p2.1 _ false v (fun hh => by cases hh) (fun _ => mb v hv) hv0⟩
 /-- … and of `convB`. -/
 theorem convB_rest_good (anno : Nat → SI) (env : Nat → Nat)
     (hctx : ∀ i, (anno i).WF ∧ (anno i).mem (env i)) (hnrm : ∀ i, Nrm (anno i)) :
@@ -902,10 +917,7 @@ theorem convB_rest_good (anno : Nat → SI) (env : Nat → Nat)
             have := pure_ok _ _ hrr
             subst this
             have hn' : p1.1.name.isSome = true ∧ p1.1.name = p2.1.name := by simpa using hn
-            obtain ⟨i, hi⟩ := Option.isSome_iff_exists.1 hn'.1
-            have e1 := (ma x hx).2 i hi
-            have e2 := (mb y hy).2 i (by rw [← hn'.2]; exact hi)
-            have : x = y := by omega
+            have : x = y := nameOK_eq env p1.1.name x y hn'.1 (ma x hx).2 (by rw [hn'.2]; exact (mb y hy).2)
             simp [this, BoolRes.has, BoolRes.hasTrue]
           · rw [if_neg hn] at hrr
             obtain ⟨m, hm, hrr⟩ := bind_ok _ _ _ hrr
